@@ -39,9 +39,18 @@ def c01(B, K, D_, raw, longs=(), bigK=None, bigD=None):
         for t in (117, 118):
             runs.append({"harness": "vxH01Msg", "args": [str(t), "false", "1", "1", str(bigD), "0"], "files": F, "reach": ["ok"], "max_steps": 400000000, "bounds": f"type {t}: payload of {bigD} bytes"})
     return runs
+def c01_cross():
+    F = ["api", "ref_wire", "c01"]
+    runs = []
+    for sv in ("z3-new", "cvc5"):
+        for t in (104, 110, 118, 125):
+            for dotu in ("false", "true"):
+                runs.append({"harness": "vxH01Msg", "args": [str(t), dotu, "3", "2", "4", "0"], "files": F, "raw": True, "solver": sv, "reach": ["ok"],
+                             "bounds": f"cross-solver re-discharge with {sv}: type {t} dotu={dotu}, strings 0..3, payload 0..4"})
+    return runs
 w("C01", {
  "quick": c01(3, 2, 4, True, longs=(255, 256)),
- "thorough": c01(6, 2, 16, True, longs=(255, 256, 65535), bigK=16, bigD=8192),
+ "thorough": c01(6, 2, 16, True, longs=(255, 256, 65535), bigK=16, bigD=8192) + c01_cross(),
  "outside": ["strings longer than 65535 bytes (not representable)", "several long strings in one message", "Akaros error format"],
  "assumptions": ["Twrite is checked under count == len(data) (the representable case)", "the oracle is harness/ref_wire.go, an independent layout table + little-endian encoder"],
 })
@@ -70,9 +79,13 @@ def c02(nmax, statextra, strmax, fullhi):
             runs.append({"harness": "vxH02Dir", "args": [dotu, str(dhi + 1), str(dmin + statextra), str(strmax)], "files": F, "reach": ["ok", "err"], "conc_cap": 200,
                          "bounds": f"UnpackDir on every byte string of length {dhi+1}..{dmin+statextra} whose strings are each <= {strmax} bytes, dotu={dotu}"})
     return runs
+def c02_cross():
+    F = ["api", "ref_wire", "c02"]
+    return [{"harness": "vxH02Unpack", "args": [dotu, "0", "20", "0", "-1"], "files": F, "reach": ["ok", "err"], "conc_cap": 200, "solver": sv,
+             "bounds": f"cross-solver re-discharge with {sv}: every byte string of length 0..20, dotu={dotu}"} for sv in ("z3-new", "cvc5") for dotu in ("false", "true")]
 w("C02", {
  "quick": c02(24, 3, 1, 62),
- "thorough": c02(32, 6, 2, 66),
+ "thorough": c02(32, 6, 2, 66) + c02_cross(),
  "outside": ["inputs longer than the stated lengths", "allocation threshold is deliberately loose: 16*len+2MiB (flags 32-bit-count driven allocations only)"],
  "assumptions": ["Dir.Size and Fcall.Size (derived length fields) are not compared across the re-encode round trip"],
 })
